@@ -170,9 +170,9 @@ theorem stepDeps_st (dops : DOps α B) (law : BatLaw dops.bat) (de : DEnv α)
     (cvs : List (VehicleS α B)) (batIds : List String)
     (w' : SWorld α B) (ini' : DInit α) (acc' : List (String × α))
     (hsub : ∀ s ∈ stations, s ∈ w.stations) (h0 : StOK w.stations)
-    (h : stepDeps dops de w ini acc gc stations cvs batIds = .ok (w', ini', acc')) :
+    (h : stepDepsRule dops de w ini acc gc stations cvs batIds = .ok (w', ini', acc')) :
     StOK w'.stations ∧ ini' = ini := by
-  unfold stepDeps at h
+  unfold stepDepsRule at h
   simp only [bind, Except.bind] at h
   split at h
   · cases h
@@ -231,9 +231,9 @@ theorem stepOpps_st (dops : DOps α B) (law : BatLaw dops.bat) (de : DEnv α) (l
     (stations : List (StationS α)) (cvs : List (VehicleS α B)) (batIds : List String)
     (w' : SWorld α B) (ini' : DInit α) (acc' : List (String × α))
     (hsub : ∀ s ∈ stations, s ∈ w.stations) (h0 : StOK w.stations) (hv0 : MaxOK ini.virtualCs)
-    (h : stepOpps dops de lk w ini acc gcId gc stations cvs batIds = .ok (w', ini', acc')) :
+    (h : stepOppsRule dops de lk w ini acc gcId gc stations cvs batIds = .ok (w', ini', acc')) :
     StOK w'.stations ∧ MaxOK ini'.virtualCs := by
-  unfold stepOpps at h
+  unfold stepOppsRule at h
   simp only [bind, Except.bind] at h
   split at h
   · cases h
@@ -281,6 +281,7 @@ structure StInv (st : SWorld α B × DInit α × List (String × α)) : Prop whe
   virt : MaxOK st.2.1.virtualCs
 
 theorem stepGc_st (dops : DOps α B) (law : BatLaw dops.bat) (de : DEnv α)
+    (hd : de.deps.ps = none) (ho : de.opps.ps = none)
     (ncs : List (String × Option Int)) (conn : List (String × List String)) (lk : Look α)
     (st st' : SWorld α B × DInit α × List (String × α)) (gcId : String) (hinv : StInv st)
     (h : stepGc dops de ncs conn lk st gcId = .ok st') : StInv st' := by
@@ -306,10 +307,12 @@ theorem stepGc_st (dops : DOps α B) (law : BatLaw dops.bat) (de : DEnv α)
               obtain ⟨w', ini', acc'⟩ := st'
               cases kind with
               | deps =>
+                unfold stepDeps at h; simp only [hd] at h
                 obtain ⟨a, e⟩ := stepDeps_st dops law de st.1 st.2.1 st.2.2 gc stations cvs _ w' ini' acc'
                   hsub hinv.ok h
                 exact ⟨a, by rw [e]; exact hinv.virt⟩
               | opps =>
+                unfold stepOpps at h; simp only [ho] at h
                 obtain ⟨a, b⟩ := stepOpps_st dops law de lk st.1 st.2.1 st.2.2 gcId gc stations cvs _ w' ini' acc'
                   hsub hinv.ok hinv.virt h
                 exact ⟨a, b⟩
